@@ -17,7 +17,7 @@ case "$CMD" in
     mkdir -p "$W"
     if [ ! -d "$W/repo" ]; then git -C /repo worktree add -q --detach "$W/repo" HEAD || exit 2; cp /repo/Cargo.lock "$W/repo/" 2>/dev/null; fi
     git -C "$W/repo" checkout -q --detach "$(git -C /repo rev-parse HEAD)" 2>/dev/null
-    git -C "$W/repo" checkout -q -- . ; git -C "$W/repo" clean -fdq -e target
+    git -C "$W/repo" reset -q --hard; git -C "$W/repo" clean -fdq -e target
     mkdir -p "$W/verif"
     rsync -a --delete --exclude .git --exclude target --exclude replays --exclude seeded --exclude evidence /verif/ "$W/verif/"
     for f in sim/csim/Cargo.toml sim/miri_c04/Cargo.toml sim/miri_c18/Cargo.toml sim/miri_mt/Cargo.toml; do
@@ -35,7 +35,7 @@ case "$CMD" in
     mkdir -p "$W/out"; rm -f "$W/out"/*.json
     (cd "$W/verif" && CSIM_EVIDENCE_DIR="$W/out" CSIM_REPLAY_DIR="$W/out" ./check "$ID" "$TIER") > "$W/last.out" 2>&1; RC=$?
     grep -E '^(VIOLATION|KNOWN-FINDING|HARNESS-ERROR|NONDETERMINISM|  signature|C[0-9]+ (quick|thorough):)' "$W/last.out" | head -12
-    git -C "$W/repo" checkout -q -- . ; git -C "$W/repo" clean -fdq -e target
+    git -C "$W/repo" reset -q --hard; git -C "$W/repo" clean -fdq -e target
     echo "rc=$RC"
     exit $RC ;;
   *) echo "usage: iso.sh try <slot> <patch|none> <ID> [tier] | clean <slot>"; exit 2 ;;
